@@ -911,6 +911,39 @@ func genStream(r *rng.R, tr string, cc compCfg, nw int, conc bool, perWriter int
 	return ci
 }
 
+// genHeavy: the concurrent-writer family that must make any interleaving inside a frame show:
+// 4-8 free-running writers (no barrier: the others keep writing while one is inside a large
+// frame) on one transport, 40-50 messages each, about 30% of them larger than 16 KiB (16385,
+// 20000, 65537, 100000 - pseudo-random content, so they stay large when compressed) between small
+// ones.
+func genHeavy(r *rng.R, tr string, cc compCfg) *caseIn {
+	ci := &caseIn{Tr: tr, Kind: "stream", CC: cc, Conc: true, Dir: []string{"c2s", "s2c"}[r.Intn(2)]}
+	nw := 4 + r.Intn(5)
+	large := []int{16385, 20000, 65537, 100000}
+	for w := 0; w < nw; w++ {
+		var ms []msgSpec
+		n := 40 + r.Intn(11)
+		for i := 0; i < n; i++ {
+			var m msgSpec
+			switch {
+			case r.Chance(3, 10):
+				m = msgSpec{N: large[r.Intn(len(large))], Seed: r.U64() % 2147483648}
+			case r.Chance(1, 3):
+				m = genContent(r, 1+r.Intn(600), false)
+			default:
+				size := sizesSmall[r.Intn(len(sizesSmall))]
+				if size == 0 && w > 0 {
+					size = 1
+				}
+				m = genContent(r, size, false)
+			}
+			ms = append(ms, m)
+		}
+		ci.Writers = append(ci.Writers, ms)
+	}
+	return ci
+}
+
 // genDgram: messages needing 1..6 segments over nh+1 handles
 func genDgram(r *rng.R, tr string, cc compCfg, P int, nh int, conc bool, perHandle int) *caseIn {
 	ci := &caseIn{Tr: tr, Kind: "dgram", CC: cc, Conc: conc, P: P, Dir: []string{"c2s", "s2c"}[r.Intn(2)],
@@ -1018,6 +1051,9 @@ func describe(ci *caseIn) (kind string, nontrivial bool) {
 	}
 	if ci.Conc {
 		kind += "-concurrent"
+		if ci.Kind == "stream" && len(ci.Writers) >= 4 && len(ci.Writers[0]) >= 40 {
+			kind += "-heavy"
+		}
 	} else {
 		kind += "-seq"
 	}
@@ -1170,6 +1206,10 @@ func main() {
 					return genStream(cr, tr, compCfg{Level: l}, 2+cr.Intn(3), true, 8+cr.Intn(6), 2, 0)
 				})
 			}
+			// many free-running writers, many messages, a good share above 16 KiB
+			run(r.Fork(), tr, func(cr *rng.R) *caseIn {
+				return genHeavy(cr, tr, compCfg{Level: []int{0, 0, 1}[round%3]})
+			})
 			// writers one after the other on one connection; 1 MiB messages
 			run(r.Fork(), tr, func(cr *rng.R) *caseIn {
 				return genStream(cr, tr, compCfg{Level: qLevels[cr.Intn(4)]}, 2+cr.Intn(2), false, 3, 0, 0)
@@ -1241,7 +1281,7 @@ func main() {
 		})
 	}
 	rule := "real transports over loopback sockets (wt = transport/webtransport, quic = transport/quic, ws = transport/websocket with the " + wsBackend +
-		" backend), the repository's transport on both ends, a fresh connection per case; one round = 99 cases (32 wt, 32 quic, 35 ws), quick = 3 rounds, thorough = 30. stream: per transport every level {0,1,6,9} (ws: off, per-message x {1,6,9}, context takeover window bits {0,1,8,15} x {1,6,9}) x {one writer, 2-4 concurrent writers}, 6-14 messages per writer with sizes 0,1,2,3,5,17,100,254-258,1000,4095,4096, random <600, one or two of 65535-70000, plus cases with 1 MiB messages and writers one after the other; dgram (wt, quic): segment payload size 1-8 and 100 (hook) and the real 1188, messages of 1-6 segments at k*P, k*P-1, (k-1)*P+1, through Transport.WriteUnreliable and 0-3 AsUnreliable() handles, round robin or one goroutine per handle (3/4 of the concurrent cases: writers meet at a spin barrier before their i-th message, so that their Write calls overlap), paced (pause after 2-4 messages), read through a handle or Transport.ReadUnreliable; loss is never a violation; hostile (6 per transport and round, accepted side writes): 4-12 malformed datagrams sent on the raw session between the valid messages (0-7 bytes; header only / payload with max index 0 and index 1, 65535, random; index beyond max for max 1 and 5; max 65535 with one segment; a lone segment of a 2-6 segment message; random bytes), each under its own sequence number >= 2^31 - none may be handed up, no Read may fail, and the receive loop must be alive afterwards (up to 40 single-datagram probes over 2 s; dead = none delivered and the peer's rx counter frozen - loss is never a violation). non-trivial = stream: concurrent writers or >=3 messages; dgram: a multi-segment message and more than one handle, or a hostile case; distinct = distinct Coq case terms"
+		" backend), the repository's transport on both ends, a fresh connection per case; one round = 101 cases (33 wt, 33 quic, 35 ws), quick = 3 rounds, thorough = 30. stream: per transport every level {0,1,6,9} (ws: off, per-message x {1,6,9}, context takeover window bits {0,1,8,15} x {1,6,9}) x {one writer, 2-4 concurrent writers}, 6-14 messages per writer with sizes 0,1,2,3,5,17,100,254-258,1000,4095,4096, random <600, one or two of 65535-70000, plus per transport and round one heavy case (4-8 free-running writers x 40-50 messages, ~30% of them 16385/20000/65537/100000 bytes of incompressible content between small ones, level 0 or 1), cases with 1 MiB messages and writers one after the other; dgram (wt, quic): segment payload size 1-8 and 100 (hook) and the real 1188, messages of 1-6 segments at k*P, k*P-1, (k-1)*P+1, through Transport.WriteUnreliable and 0-3 AsUnreliable() handles, round robin or one goroutine per handle (3/4 of the concurrent cases: writers meet at a spin barrier before their i-th message, so that their Write calls overlap), paced (pause after 2-4 messages), read through a handle or Transport.ReadUnreliable; loss is never a violation; hostile (6 per transport and round, accepted side writes): 4-12 malformed datagrams sent on the raw session between the valid messages (0-7 bytes; header only / payload with max index 0 and index 1, 65535, random; index beyond max for max 1 and 5; max 65535 with one segment; a lone segment of a 2-6 segment message; random bytes), each under its own sequence number >= 2^31 - none may be handed up, no Read may fail, and the receive loop must be alive afterwards (up to 40 single-datagram probes over 2 s; dead = none delivered and the peer's rx counter frozen - loss is never a violation). non-trivial = stream: concurrent writers or >=3 messages; dgram: a multi-segment message and more than one handle, or a hostile case; distinct = distinct Coq case terms"
 	if *only != "" {
 		rule = "(-only " + *only + ") " + rule
 	}
